@@ -89,7 +89,11 @@ fn case_from_json(v: &Value) -> Result<Case, String> {
     let r = v.get("request").ok_or("missing request")?;
     let kind = s(r, "kind")?;
     if kind == "query" {
-        let via = if s(r, "via")? == "from_request" { "from_request" } else { "from_query" };
+        let via = match s(r, "via")?.as_str() {
+            "from_request" => "from_request",
+            "from_request_rewritten" => "from_request_rewritten",
+            _ => "from_query",
+        };
         return Ok(Case {
             target: intern(&target, QUERY_TARGETS).ok_or("unknown target")?,
             error: intern(&error, QUERY_ERRORS).ok_or("unknown error type")?,
@@ -268,7 +272,7 @@ fn catalogue(seed: u64) -> Vec<Case> {
     ];
     for &target in QUERY_TARGETS {
         for &error in QUERY_ERRORS {
-            for via in ["from_query", "from_request"] {
+            for via in ["from_query", "from_request", "from_request_rewritten"] {
                 for (q, class) in QS {
                     out.push(Case { target, error, req: Req::Query(QueryReq { query: q.to_string(), via, class: class.to_string() }) });
                 }
